@@ -65,9 +65,10 @@ class _Crash:
         if isinstance(path, bytes):
             path = path.decode()
         ap = os.path.abspath(path)
-        if self.root and not ap.startswith(self.root) and not ap.endswith(".gffutils"):
+        if self.root and not ap.startswith(self.root) and not ap.endswith(".gffutils") and not \
+                (_CFG.get("crash_count_index") and (".fai" in os.path.basename(ap) or ".gzi" in os.path.basename(ap))):
             # outside the output folder only the scratch files of the annotation converter count (they are written in the middle of the
-            # conversion, when the database in the output folder is half built)
+            # conversion, when the database in the output folder is half built) and, on request, the index files of the reference
             return
         if os.getpid() != self.main_pid:
             # worker process: mutations are logged but not numbered in the global order; optionally the whole
@@ -258,6 +259,12 @@ def _install_cache():
                     time.sleep(_CFG["cache_create_delay"])
                 return f
             emit("cache_open_r", path=os.path.basename(p))
+        elif _CFG.get("index_write_delay") and any(ch in mode for ch in "wa+x") and (".fai" in os.path.basename(p) or ".gzi" in os.path.basename(p)):
+            # the reference index (written next to the reference, which runs may share): pre-empted right after the file was opened for writing
+            f = real_open(file, mode, *a, **kw)
+            emit("index_open_w", path=os.path.basename(p))
+            time.sleep(_CFG["index_write_delay"])
+            return f
         return real_open(file, mode, *a, **kw)
 
     @functools.wraps(real_load)
